@@ -96,15 +96,16 @@ DetAgrees(c, d) ==
 SameSubject(c, d) ==
     CASE c.k = "missing"    -> d.field = c.field
       [] c.k = "unknownkey" -> d.key = c.key
-      [] c.k = "unexpected" -> c.msgkey = "" \/ Contains(d.msg, c.msgkey)
       [] OTHER -> TRUE
 
 \* losing or duplicating a report in a keep-going run also breaks "the final error holds exactly one report per fault"
 KeepGoing(s) == IF s.cur.allc THEN {"C02"} ELSE {}
 
+\* in a variant, the fields are read by the rules of that variant alone (C10)
+EnumProps(N) == IF N.c = "enum" THEN {"C10"} ELSE {}
 ParentKindProps(F) ==
     LET N == Nodes[F.n] IN
-    IF IsStructLike(N) THEN {"C04", "C07"} ELSE IF N.c \in {"hmap", "bmap"} THEN {"C04", "C06"} ELSE {"C04", "C06"}
+    IF IsStructLike(N) THEN {"C04", "C07"} \cup EnumProps(N) ELSE IF N.c \in {"hmap", "bmap"} THEN {"C04", "C06"} ELSE {"C04", "C06"}
 
 OnEnter(s, e) ==
     IF s.phase = "idle" THEN
@@ -135,7 +136,7 @@ OnEnter(s, e) ==
                 otherVariant == N.c = "enum" /\ \E vj \in 1..Len(N.variants) : vj # F.vi /\ \E fi \in 1..Len(N.variants[vj].fields) : N.variants[vj].fields[fi].node = e.n
             IN IF F.brk \/ F.ph \in {"fin"} THEN Flag(s, {"C03"}, "a child is examined after the error type answered stop (or after a structural failure)")
                ELSE IF isSkipped THEN Flag(s, {"C08"}, "a skipped field reads the payload")
-               ELSE IF isField THEN Flag(s, {"C07", "C09"}, "a field is fed from a member that does not carry its effective key")
+               ELSE IF isField THEN Flag(s, {"C07", "C09"} \cup EnumProps(N), "a field is fed from a member that does not carry its effective key")
                ELSE IF otherVariant \/ (N.c = "enum" /\ F.ph = "bad") THEN Flag(s, {"C10"}, "a field of a variant the tag does not name is read")
                ELSE Flag(s, {"C02", "C06"}, "a child is examined that the container has no obligation for (twice, or out of range)")
 
@@ -178,10 +179,10 @@ OnErr(s, e) ==
             ELSE IF e.det.k = "missing" THEN
                  Flag(s1, {"C08", "C04"} \cup KeepGoing(s)
                           \cup (IF IsStructLike(N) /\ F.val.t = "map" /\ \E j \in 1..Len(F.val.e) : RouteK(N, F.vi, F.fkeys, F.val.e[j].k) > 0 /\ F.fkeys[RouteK(N, F.vi, F.fkeys, F.val.e[j].k)] = e.det.field
-                                 THEN {"C07"} ELSE {}),      \* its effective key is there: the field was not read from it
+                                 THEN {"C07"} \cup EnumProps(N) ELSE {}),      \* its effective key is there: the field was not read from it
                       "a field is reported missing although it is present, defaulted, skipped, or already reported")
             ELSE IF e.det.k = "unknownkey" THEN
-                 Flag(s1, {"C09", "C04"} \cup KeepGoing(s) \cup (IF IsStructLike(N) /\ RouteK(N, F.vi, F.fkeys, e.det.key) > 0 THEN {"C07"} ELSE {}),
+                 Flag(s1, {"C09", "C04"} \cup KeepGoing(s) \cup (IF IsStructLike(N) /\ RouteK(N, F.vi, F.fkeys, e.det.key) > 0 THEN {"C07"} \cup EnumProps(N) ELSE {}),
                       "a key is reported unknown although it is known, not denied, or already reported")
             ELSE IF F.ph = "bad" THEN Flag(s1, {"C04"} \cup tagprops \cup scalarprops \cup (IF N.c \in {"arr", "tup"} THEN {"C06"} ELSE {}),
                                            "the report made for a faulty value is of the wrong kind")
@@ -304,7 +305,7 @@ OnExit(s, e) ==
                  IF ValueAgrees(F, e.val) THEN Seen(s1, {"C01", "C06"} \cup ExitProps(N))
                  ELSE Flag(s, ExitProps(N), "the value returned is not the one the payload prescribes")
             ELSE IF \E c \in Candidates(s.stack, s.cur) : c.e = "call" THEN Flag(s, {"C11"}, "Ok is returned without running the map / validate function that is due")
-            ELSE IF F.ph = "bad" THEN Flag(s, ExitProps(N) \cup {"C04"}, "Ok is returned for a value the target cannot accept, without any report")
+            ELSE IF F.ph = "bad" THEN Flag(s, ExitProps(N) \cup {"C04"} \cup KeepGoing(s), "Ok is returned for a value the target cannot accept, without any report")
             ELSE Flag(s, {"C02"} \cup PendProps(F), "Ok is returned before every element / member / field was examined")
        ELSE \* error exit
             IF ~bagok THEN Flag(s, {"C01"} \cup KeepGoing(s) \cup LostProps(s, F.since, e.err.ids), "the returned error is not made of exactly the reports made since the call was entered")
@@ -380,7 +381,8 @@ MsgStep(s, e) ==
 
 Step(s, e) ==
     CASE e.e \in {"reset", "run"} -> StartRun(s, e)
-      [] e.e = "panic" -> Flag(s, {"C12"}, "deserialize panicked")      \* a panic is a fact, whatever happened before in the run
+      [] e.e = "panic" -> Flag(s, {"C12"} \cup (IF s.cur.extra THEN {"C09"} ELSE {}) \cup (IF s.cur.perm THEN {"C15"} ELSE {}),
+                               "deserialize panicked")      \* a panic is a fact, whatever happened before in the run
       [] s.cur.deep -> s                                                 \* deep nests are not spelled out: only totality is judged
       [] e.e = "done"  -> GroupDone(IF s.runbad THEN s ELSE OnDone(s, e), e)
       [] s.cur.etype # "rec" -> s
